@@ -193,7 +193,8 @@ class Gen:
             env.setdefault("btemps", []).append(name)
             return ["snap", name, "b0"]
         if k == "push":
-            return ["push", self.vexpr(env), rs.below(2)]
+            # (half of the pushes carry a Python literal: several push sites of one signal, each with its own literal)
+            return ["push", ["k", rs.below(16)] if rs.below(2) else self.vexpr(env), rs.below(2)]
         if k == "rdptr":
             # read-pointer idiom: an array element selected by a bare index variable is bound to a name, the variable is
             # advanced, and only then the element is used (program order: the element of the OLD index)
